@@ -399,9 +399,6 @@ func e2eHistoryPairs(c *e2eCtx) error {
 		gran := []string{"line", "patch", "scope", "func"}[i%4]
 		for mi, mode := range []string{"2", "3", "INIT"} {
 			cfg := proj.DefaultConfig("vold")
-			if i%4 == 1 { // the tag `init`: a revision like any other, not the new-repository keyword INIT
-				cfg.Old = "init"
-			}
 			cfg.Granularity = gran
 			cfg.Precision = 2
 			switch mode {
@@ -422,7 +419,7 @@ func e2eHistoryPairs(c *e2eCtx) error {
 				cfg.AppVersion = "2406001"
 				cfg.AppName = "0123abc"
 			}
-			run := func(dir string, packed bool, prior bool) (proj.Run, map[string]string) {
+			run := func(dir string, packed bool, prior bool, oldName string) (proj.Run, map[string]string) {
 				proj.Git(dir, 0, "reset", "-q", "--hard")
 				proj.Git(dir, 0, "clean", "-fdxq")
 				if prior {
@@ -443,6 +440,9 @@ func e2eHistoryPairs(c *e2eCtx) error {
 					proj.Git(dir, 0, "clean", "-fdxq")
 				}
 				cc := cfg
+				if oldName != "" && cc.Old != "INIT" {
+					cc.Old = oldName
+				}
 				cc.Threads = 1
 				if (i+mi)%2 == 0 { // loose and packed stores alike (object reads are serialised since fix 11c0d4a)
 					cc.Threads = 4
@@ -453,8 +453,15 @@ func e2eHistoryPairs(c *e2eCtx) error {
 				delete(t, "goat.yaml") // differs in `threads` only
 				return res, t
 			}
-			ra, ta := run(dirA, planA.packed, i%3 == 1)
-			rb, tb := run(dirB, planB.packed, false)
+			// one pair in four names the old revision `init` in history A (a tag spelled like the
+			// new-repository keyword INIT in lower case) and `vold` in history B: same contents, other name
+			nameA := ""
+			if i%4 == 1 {
+				nameA = "init"
+				c.count("A:old-revision-named-init")
+			}
+			ra, ta := run(dirA, planA.packed, i%3 == 1, nameA)
+			rb, tb := run(dirB, planB.packed, false, "")
 			c.mu.Lock()
 			c.res.Evaluations++
 			c.mu.Unlock()
